@@ -378,6 +378,23 @@ def install(R):
         return mk_bool(eng.truth(evs[-1].extra["result"], fr))
     S["last_result_truthy"] = last_result_truthy
 
+    # ------------------------------------------------------------------ a ghost witness map V -> Int (loop invariants)
+    def wit_init(eng, fr):
+        fr.st.ghost["wit"] = SV("z3", z3.K(V, z3.IntVal(-1)))
+        return NONE
+    S["wit_init"] = wit_init
+
+    def wit_put(eng, fr, x, i):
+        fr.st.ghost["wit"] = SV("z3", z3.Store(fr.st.ghost["wit"].t, eng.as_V(x), eng.as_int(i, fr)))
+        return NONE
+    S["wit_put"] = wit_put
+
+    def wit_at(eng, fr, x):
+        if "wit" not in fr.st.ghost:
+            fr.st.ghost["wit"] = SV("z3", z3.Const("wit@0", z3.ArraySort(V, Int)))
+        return mk_int(z3.Select(fr.st.ghost["wit"].t, eng.as_V(x)))
+    S["wit_at"] = wit_at
+
     # ------------------------------------------------------------------ lazy iterators: map / chain.from_iterable
     def map_hook(eng, fr, args, node):
         if len(args) != 2:
